@@ -171,3 +171,28 @@ pub(crate) fn stub_client_proof_custom(
     );
     Proof::from_le_bytes(out20(&o))
 }
+
+/// C03 (history of two groups in one process): a client that talks to a second server announcing another
+/// group computes A = g2^a2 mod N2 for that group — nothing about the first group may linger.
+#[kani::proof]
+#[kani::unwind(66)]
+fn c03_a_client_twice() {
+    let a1: [u8; 32] = kani::any();
+    let g1: u8 = kani::any();
+    let n1 = nonzero32();
+    let a2: [u8; 32] = kani::any();
+    let g2: u8 = kani::any();
+    let n2 = nonzero32();
+    let _first = calculate_client_public_key(&PrivateKey::from_le_bytes(a1), &Generator::from(g1), &LargeSafePrime::from_le_bytes(n1));
+    let val = BigInt::from(g2).modpow(&big(&a2), &big(&n2));
+    let expected = pad32(&val);
+    match calculate_client_public_key(&PrivateKey::from_le_bytes(a2), &Generator::from(g2), &LargeSafePrime::from_le_bytes(n2)) {
+        Ok(k) => {
+            assert!(eq32(k.as_le_bytes(), &expected), "C03: the second client key is not g^a mod N for the group announced the second time");
+            kani::cover!(!eq32(&n1, &n2), "two different primes in a row");
+        }
+        Err(_) => {
+            assert!(val.is_zero_model(), "C03: a non-zero client A was refused");
+        }
+    }
+}
